@@ -2,7 +2,7 @@
     Tables GENERATED from operations.py (Gen/OpsTable.v); evaluator of Model/Core.v. *)
 From Coq Require Import List Arith Bool Reals Lra.
 From Coquelicot Require Import Coquelicot.
-From QV Require Import Base.RealOps Gen.OpsTable Model.Core Proofs.OpsRules Proofs.CoreR.
+From QV Require Import Base.RealOps Gen.OpsTable Model.Core Proofs.OpsRules Proofs.CoreLists Proofs.CoreR.
 Import ListNotations.
 Local Open Scope R_scope.
 
